@@ -5,13 +5,13 @@ import (
 	"bytes"
 	"errors"
 	"fmt"
-	"strings"
 	"testing"
 
 	"github.com/wollac/iota-crypto-demo/pkg/bip39"
 	"pgregory.net/rapid"
 
 	"verifharness/h"
+	"verifharness/mgen"
 	ref "verifharness/ref/bip39"
 )
 
@@ -96,36 +96,7 @@ func checkEntropy(c entCase) (h.Info, error) {
 	return info, nil
 }
 
-func genEntropyBytes(t *rapid.T, n int) []byte {
-	e := rapid.SliceOfN(rapid.Byte(), n, n).Draw(t, "e")
-	switch h.Pick(t, "shape", 6, 4, 2, 1, 1, 1) {
-	case 1: // leading zero bytes
-		z := rapid.IntRange(1, 8).Draw(t, "lz")
-		for i := 0; i < z && i < n; i++ {
-			e[i] = 0
-		}
-	case 2: // trailing zeros
-		z := rapid.IntRange(1, 8).Draw(t, "tz")
-		for i := 0; i < z && i < n; i++ {
-			e[n-1-i] = 0
-		}
-	case 3:
-		for i := range e {
-			e[i] = 0
-		}
-	case 4:
-		for i := range e {
-			e[i] = 0xff
-		}
-	case 5: // single set bit
-		for i := range e {
-			e[i] = 0
-		}
-		bit := rapid.IntRange(0, 8*n-1).Draw(t, "bit")
-		e[bit/8] = 0x80 >> uint(bit%8)
-	}
-	return e
-}
+func genEntropyBytes(t *rapid.T, n int) []byte { return mgen.EntropyBytes(t, n) }
 
 func genEntropy(t *rapid.T) entCase {
 	lang := h.OneOf(t, "lang", langs...)
@@ -273,29 +244,9 @@ func genSentence(t *rapid.T) sentCase {
 			words[i] = l.Words[rapid.IntRange(0, 2047).Draw(t, "idx")]
 		}
 	}
-	nmut := h.Pick(t, "nmut", 5, 5, 2)
+	nmut := h.Pick(t, "nmut", 4, 6, 2)
 	for k := 0; k < nmut; k++ {
-		if len(words) == 0 {
-			break
-		}
-		p := rapid.IntRange(0, len(words)-1).Draw(t, "p")
-		switch h.Pick(t, "mk", 6, 2, 1, 1, 1, 1, 1) {
-		case 0: // another word of the list (checksum decides)
-			words[p] = l.Words[rapid.IntRange(0, 2047).Draw(t, "w")]
-		case 1: // last word changed: checksum bits only
-			words[len(words)-1] = l.Words[rapid.IntRange(0, 2047).Draw(t, "w")]
-		case 2: // word of the other list
-			words[p] = other.Words[rapid.IntRange(0, 2047).Draw(t, "w")]
-		case 3: // wrong case / trailing space / empty / prefix
-			words[p] = h.OneOf(t, "bad", strings.ToUpper(words[p]), words[p]+" ", " "+words[p], "", words[p][:len(words[p])-1], words[p]+words[p], "abandonn")
-		case 4: // drop a word
-			words = append(words[:p], words[p+1:]...)
-		case 5: // duplicate a word
-			words = append(words[:p+1], words[p:]...)
-		default: // swap two words
-			q := rapid.IntRange(0, len(words)-1).Draw(t, "q")
-			words[p], words[q] = words[q], words[p]
-		}
+		words, _ = mgen.Mutate(t, words, l, other)
 	}
 	return sentCase{lang, words}
 }
